@@ -8,6 +8,7 @@ cluster content — and, since the repair of D11, over decoders that fail after 
 -/
 import JubakoModel.Model.SyncVec
 import JubakoModel.Lemmas.SyncVec
+import JubakoModel.Lemmas.Cache
 
 namespace Jubako
 
@@ -71,6 +72,22 @@ theorem c07_cache_handles_stable (c : LruCache) (idx : Nat) (h : LruInv c) :
   rcases lru_get_fresh_or_same c idx with ⟨h1, _, h3⟩ | ⟨e, h1, h2, _⟩
   · exact Or.inl ⟨h1, h3⟩
   · exact Or.inr ⟨e, h1, h2⟩
+
+/-- **No reader is ever given another cluster's buffer through the cache**: over any history of
+    lookups (the cache's mutex serialises the lookups of concurrent readers; `idxs` is that order),
+    with any capacity — hence any amount of eviction and re-insertion in between — every lookup is
+    answered for the index it asked, and a handle that was handed out for one cluster index is never
+    handed out for another one. -/
+theorem c07_cache_serves_requested_cluster (cap : Nat) (idxs : List Nat) :
+    ((⟨cap, [], 0⟩ : LruCache).run idxs).1.map (·.1) = idxs ∧
+    ∀ p ∈ ((⟨cap, [], 0⟩ : LruCache).run idxs).1, ∀ q ∈ ((⟨cap, [], 0⟩ : LruCache).run idxs).1,
+      p.2 = q.2 → p.1 = q.1 :=
+  ⟨lru_run_answers _ idxs, lru_handle_serves_one_cluster cap idxs⟩
+
+/-- non-vacuity: capacity 2, five lookups over three clusters: cluster 0 is evicted and comes back
+    with a new handle; handles 0 and 3 both serve cluster 0, nobody else's -/
+example : ((⟨2, [], 0⟩ : LruCache).run [0, 1, 2, 0, 1]).1 = [(0, 0), (1, 1), (2, 2), (0, 3), (1, 4)] := by
+  decide
 
 /-- non-vacuity: 2 readers, 2 decoder writes, a schedule in which reader 0 is served after the
     first publication while the decoder is still writing, and reader 1 after the second -/
